@@ -11,7 +11,7 @@ Part == IF "PART" \in DOMAIN IOEnv THEN IOEnv.PART ELSE "prop"
 Thorough == IF "TIER" \in DOMAIN IOEnv THEN IOEnv.TIER = "thorough" ELSE FALSE
 Emit(c) == PrintT("CASE " \o ToJson(c))
 LevelDecs == <<"0.001", "0.01", "0.05", "0.1", "0.2", "0.25", "0.3", "0.5", "0.75", "0.8", "0.9", "0.95",
-               "0.975", "0.99", "0.995", "0.999", "0.9999">>
+               "0.975", "0.99", "0.995", "0.998", "0.999", "0.9995", "0.9999">>
 CKinds == <<"two", "upper", "lower">>
 Conf(ki, li) == [kind |-> CKinds[ki], level |-> [dec |-> LevelDecs[li]]]
 Ns == IF Thorough THEN <<20, 30, 50, 100, 200, 400, 1000, 1500, 2000>> ELSE <<20, 30, 50, 100, 200, 1500>>
